@@ -176,7 +176,10 @@ def judge_cases(chk: common.Check, module: str, cases: T.List[T.Dict[str, T.Any]
             if res.distinct != 2 * len(part):
                 raise common.MachineryError(f'{module} judged {res.distinct // 2} of {len(part)} cases')
             bad = res.json_lines()
-            if bad:
+            # lines of parallel workers may interleave: if any verdict-looking line did not parse, judge the
+            # flagged batch again single-threaded
+            cand = [ln for ln in res.stdout.splitlines() if ln.strip().startswith('"')]
+            if len(cand) != len(bad):
                 res1 = common.run_tlc(common.SPECS / 'ninja', module, env={'TRACE_FILE': str(tf)}, timeout=3000, workers=1)
                 bad = res1.json_lines()
             chk.add_tlc(f'{module}[{label}#{part_no}]', res, model=False)
